@@ -185,7 +185,7 @@ def CBody.resMeaningF : CBody → Option Fml
       some (.and (ivs.flatMap (fun iv => busy.map (fun b =>
         let shift := Term.add (numT offset) (.mul (numT period) (.div (.sub b.s (numT offset)) (numT period)))
         Fml.or ([Fml.ge b.s (.add (numT iv.2) shift), Fml.le b.e (.add (numT iv.1) shift)] ++
-          (if start > 0 then [Fml.le b.e (numT start)] else []) ++
+          (if start ≥ 0 then [Fml.le b.e (numT start)] else []) ++
           (match end_ with | some en => [Fml.ge b.s (numT en)] | none => []))))))
   | .interrupted ws ivs =>
       if ivs.all (fun iv => decide (iv.1 < iv.2)) then
